@@ -167,10 +167,29 @@ def check_array_bytes(run, db):
     return n
 
 
+def check_list_moves(run, db):
+    """free nodes stay available across moves of the lists that hold them: move construction / assignment / swap of the three free
+    lists transfer every field, leave the source empty, keep counter and membership together and exchange the counters
+    (rules R-MOVE.1/.2/.6/.9 of C12 restricted to the free lists, reported as R-UNLINK.move)"""
+    from rules import c12, c05
+    rr = c05._Renamed(run, 'R-UNLINK.move')
+    n = 0
+    for cls, ops in sorted(c12.classes_with_moves(db).items()):
+        if cls not in db.classes or cls_template(cls) not in unlink.LISTS:
+            continue
+        n += 1
+        c12.check_coverage(rr, db, cls, ops)
+        c12.check_emptiness(rr, db, cls, ops)
+        c12.check_counter_membership(rr, db, cls, ops)
+        c12.check_swap_exchanges(rr, db, cls, ops)
+    return n
+
+
 def run(run):
     run.rule('R-UNLINK', 'acquire/release node-count agreement and capacity_ bookkeeping', floor=10)
     run.rule('R-RUN', 'the array search accounts the found interval exactly (one node at the start and after a gap, + node size per contiguous node) and stops at the first fit', floor=2)
     run.rule('R-UNLINK.bytes', 'array acquire and release siblings of the pools hand the free list the same byte count', floor=10)
+    run.rule('R-UNLINK.move', 'counter and nodes of the free lists travel together through move and swap', floor=6)
     run.rule('R-GROW', 'growth only when the free list is empty (node) or the search failed (array)', floor=10)
     run.explanation = ('"Exactly the memory that was taken becomes available again" is decided as term agreement between what allocate(n) unlinks '
                        '(ceil(n/node_size) nodes, from the search loop) and what deallocate(ptr,n) links, plus exact capacity_ bookkeeping; '
@@ -181,10 +200,14 @@ def run(run):
         run.count('functions_analysed', len(db.fns))
         if unlink.check_unlink(run, db) < 6:
             run.broke('free list functions not found [%s]' % cfg)
+        if unlink.check_cursor_reset(run, db) < 3:
+            run.broke('ordered list constructors / swap not found [%s]' % cfg)
         if c02.check_run(run, db) < 2:
             run.broke('array search functions not found [%s]' % cfg)
         if check_array_bytes(run, db) < 6:
             run.broke('array siblings of the pools not found [%s]' % cfg)
+        if check_list_moves(run, db) < 2:
+            run.broke('free lists with move operations not found [%s]' % cfg)
         if check_growth(run, db) < 8:
             run.broke('pool allocation functions not found [%s]' % cfg)
     fixtures.expect_fire(run, 'c04_bad.cpp', _fixture, 'R-GROW')
